@@ -41,6 +41,33 @@ def check_value(v):
     return msgs
 
 
+def rebinding_scenario(ctx):
+    """the classes and functions of a user module are re-created under the same names between two loads (importlib.reload, a re-run
+    notebook cell): an object of the *new* class must come back as an instance of that new class"""
+    import importlib
+
+    from skops.io import dumps, get_untrusted_types, loads
+
+    from ..objgen import U
+
+    makers = [("Plain", lambda: U.Plain(1, [2])), ("WithGetstate", lambda: U.WithGetstate(3)), ("WithSlots", lambda: U.WithSlots(1, 2)),
+              ("MyDict", lambda: U.MyDict(a=1)), ("MyList", lambda: U.MyList([1])), ("module_function", lambda: U.module_function),
+              ("nested", lambda: {"k": [U.Plain(U.WithGetstate(1), 2)]}), ("type", lambda: U.Plain)]
+    fails = []
+    for rnd in range(2):
+        for name, mk in makers:
+            o = mk()
+            r = valuecheck.cycle(o)
+            if r[0] == "ok":
+                d = same(o, r[1])
+                if d:
+                    fails.append((f"silently-different: after the module defining it was reloaded ({rnd} reloads, earlier loads of the same names in "
+                                  f"this process), {name} loads as a different object: {d}",
+                                  dict(kind="sequence", steps=["load objects of verif_userclasses", "importlib.reload(verif_userclasses)", f"dumps/loads {name}"])))
+        importlib.reload(U)
+    return fails[:2]
+
+
 def run(ctx):
     t0 = time.time()
     lean_ok = ctx.build(required_theorems=REQUIRED)
@@ -87,6 +114,7 @@ def run(ctx):
             r = valuecheck.cycle({"p": property(lambda s: 1)})
             if r[0] == "ok" and r[1] == {}:
                 ctx.known_finding(f["key"], f["what"])
+    ofails += rebinding_scenario(ctx)
     from ..iocheck import conclude
 
     cvals = [g.value(0, supported=(i % 2 == 0))[0] for i in range(ctx.budget(500, 20000))]
